@@ -230,6 +230,8 @@ def obligations_for(g, prop, errors, breakdown, unit):
             for c in f["clauses"]:
                 if c["kind"] in ("requires", "recommends"):
                     continue
+                if c.get("props") and prop not in c["props"]:
+                    continue
                 failed = [e for e in ferrs if e["clause"] == c["id"]]
                 if c["kind"].startswith("loop_") and not failed:
                     failed = [e for e in ferrs if e["kind"].startswith("invariant") or e["kind"] == "decreases"]
